@@ -114,6 +114,35 @@ class ShapeInterp:
     def lst(self, e: ast.AST) -> Any:
         if isinstance(e, ast.Name):
             return self.lists.get(e.id, AList(known=False, why=f"'{e.id}' is not a list the analysis followed"))
+        if isinstance(e, (ast.List, ast.Tuple)) and any(isinstance(x, ast.Starred) for x in e.elts):
+            # [a, *xs, b]: the concatenation of its plain segments and the starred lists
+            parts: list = []
+            seg: list = []
+            for x in e.elts:
+                if isinstance(x, ast.Starred):
+                    if seg:
+                        parts.append(self.lst(ast.List(elts=seg, ctx=ast.Load())))
+                        seg = []
+                    parts.append(self.lst(x.value))
+                else:
+                    seg.append(x)
+            if seg:
+                parts.append(self.lst(ast.List(elts=seg, ctx=ast.Load())))
+            if not all(isinstance(p_, AList) for p_ in parts):
+                return UNKNOWN_LIST
+            acc = parts[0]
+            for p_ in parts[1:]:
+                acc = self.concat(acc, p_)
+            return acc
+        if isinstance(e, ast.Subscript) and isinstance(e.slice, ast.Slice) and isinstance(e.slice.lower, ast.Constant) and e.slice.lower.value == 1 \
+                and e.slice.upper is None and e.slice.step is None:
+            inner = e.value
+            while isinstance(inner, ast.Call) and call_name(inner) in ("list", "tuple") and len(inner.args) == 1:
+                inner = inner.args[0]
+            init = next((k.value for k in inner.keywords if k.arg == "initial"), None) if isinstance(inner, ast.Call) and call_name(inner) == "accumulate" else None
+            if init is not None and self.num(init) is not None and self.num(init) == Lin.c(0) and len(inner.args) == 1:
+                # list(accumulate(xs, initial=0))[1:] is the list of running sums of xs
+                return self.lst(ast.Call(func=ast.Name(id="accumulate", ctx=ast.Load()), args=[inner.args[0]], keywords=[]))
         if isinstance(e, (ast.List, ast.Tuple)):
             if not e.elts:
                 return AList(empty=True, mono=True, known=True)
